@@ -377,11 +377,16 @@ func doneScenario(i int) (cont bool) {
 		}()
 	}
 	// fetch a little, then Done while asserters keep going
-	for k := 0; k < r.Intn(4); k++ {
-		s.Fetch(r.Bool())
-	}
+	nf := r.Intn(4)
+	blk := []bool{r.Bool(), r.Bool(), r.Bool(), r.Bool()}
 	dd := make(chan struct{})
-	go func() { s.Done(); close(dd) }()
+	go func() {
+		for k := 0; k < nf; k++ {
+			s.Fetch(blk[k])
+		}
+		s.Done()
+		close(dd)
+	}()
 	select {
 	case <-dd:
 	case <-time.After(20 * time.Second):
@@ -395,7 +400,7 @@ func doneScenario(i int) (cont bool) {
 		case <-time.After(200 * time.Millisecond):
 		}
 		if g := s.VerifWaitingG(); g > 1 && !s.VerifSharedEmpty() {
-			run.Violation("C19/done/lost-wakeup", fmt.Sprintf("Done sleeps forever: its G (%#x) is still stored in waitingG while an asserted waker is queued and every Assert call has returned", g), i)
+			run.Violation("C19/done/lost-wakeup", fmt.Sprintf("Fetch/Done sleeps forever: its G (%#x) is still stored in waitingG while an asserted waker is queued and every Assert call has returned", g), i)
 		} else {
 			run.Inconclusive("done-watchdog")
 		}
